@@ -68,14 +68,24 @@ type c18Case struct {
 	Cur       int   // index of the current revision
 	PodRevs   []int // revision index per ordinal
 	Limit     int32
+	Rollback  bool  // the template was rolled back to T1: revision T1 renumbered past Tn and is the update revision
+	Collision int32 // status.collisionCount of the built-in set (a name collision at some point of its history)
+}
+
+// upd is the index of the update revision.
+func (c c18Case) upd() int {
+	if c.Rollback {
+		return 0
+	}
+	return c.NRevs - 1
 }
 
 func (c c18Case) String() string {
-	return fmt.Sprintf("%s partition=%d history=T1..T%d current=T%d pods at %v limit=%d", c.Policy, c.Partition, c.NRevs, c.Cur+1, c.PodRevs, c.Limit)
+	return fmt.Sprintf("%s partition=%d history=T1..T%d current=T%d update=T%d pods at %v limit=%d collisionCount=%d", c.Policy, c.Partition, c.NRevs, c.Cur+1, c.upd()+1, c.PodRevs, c.Limit, c.Collision)
 }
 
 func (c c18Case) builtin() (*appsv1.StatefulSet, []*appsv1.ControllerRevision) {
-	sp := gen.Spec{Name: "web", Replicas: int32(len(c.PodRevs)), Policy: c.Policy, Strategy: gen.RU(c.Partition), Limit: c.Limit, Template: c.NRevs}
+	sp := gen.Spec{Name: "web", Replicas: int32(len(c.PodRevs)), Policy: c.Policy, Strategy: gen.RU(c.Partition), Limit: c.Limit, Template: c.upd() + 1}
 	sts := builtinFrom(sp.Build())
 	sts.UID = builtinUID
 	sts.ResourceVersion = "7"
@@ -94,13 +104,20 @@ func (c c18Case) builtin() (*appsv1.StatefulSet, []*appsv1.ControllerRevision) {
 				OwnerReferences:   []metav1.OwnerReference{{APIVersion: "apps/v1", Kind: "StatefulSet", Name: "web", UID: builtinUID, Controller: &t, BlockOwnerDeletion: &t}}},
 			Data: runtime.RawExtension{Raw: data}, Revision: int64(i + 1)})
 	}
+	if c.Rollback {
+		revs[0].Revision = int64(c.NRevs + 1)
+	}
 	sts.Status = appsv1.StatefulSetStatus{ObservedGeneration: 1, Replicas: int32(len(c.PodRevs)), ReadyReplicas: int32(len(c.PodRevs)),
-		CurrentRevision: revs[c.Cur].Name, UpdateRevision: revs[c.NRevs-1].Name}
+		CurrentRevision: revs[c.Cur].Name, UpdateRevision: revs[c.upd()].Name}
+	if c.Collision > 0 {
+		cc := c.Collision
+		sts.Status.CollisionCount = &cc
+	}
 	for _, pr := range c.PodRevs {
 		if pr == c.Cur {
 			sts.Status.CurrentReplicas++
 		}
-		if pr == c.NRevs-1 {
+		if pr == c.upd() {
 			sts.Status.UpdatedReplicas++
 		}
 	}
@@ -280,23 +297,33 @@ func init() {
 				for n := 1; n <= 3; n++ {
 					for cur := 0; cur < n; cur++ {
 						for r := 1; r <= maxPods; r++ {
-							// any mix of current/update revision over the ordinals
-							for mask := 0; mask < 1<<r; mask++ {
-								pr := make([]int, r)
-								for i := range pr {
-									pr[i] = cur
-									if mask&(1<<i) != 0 {
-										pr[i] = n - 1
-									}
-								}
-								if cur == n-1 && mask != 0 {
+							for variant := 0; variant < 4; variant++ {
+								rollback, coll := variant&1 != 0, int32(variant>>1)
+								if rollback && n < 2 {
 									continue
 								}
-								for _, lim := range []int32{0, 10} {
-									if lim == 0 && !thorough && n < 3 {
+								if variant != 0 && !thorough && (part != 0 || r != maxPods) {
+									continue
+								}
+								upd := c18Case{NRevs: n, Rollback: rollback}.upd()
+								// any mix of current/update revision over the ordinals
+								for mask := 0; mask < 1<<r; mask++ {
+									pr := make([]int, r)
+									for i := range pr {
+										pr[i] = cur
+										if mask&(1<<i) != 0 {
+											pr[i] = upd
+										}
+									}
+									if cur == upd && mask != 0 {
 										continue
 									}
-									cases = append(cases, c18Case{Policy: pol, Partition: part, NRevs: n, Cur: cur, PodRevs: pr, Limit: lim})
+									for _, lim := range []int32{0, 10} {
+										if lim == 0 && !thorough && (n < 3 || variant != 0) {
+											continue
+										}
+										cases = append(cases, c18Case{Policy: pol, Partition: part, NRevs: n, Cur: cur, PodRevs: pr, Limit: lim, Rollback: rollback, Collision: coll})
+									}
 								}
 							}
 						}
@@ -378,7 +405,7 @@ func init() {
 		rep.Extra["migration_cases"] = done
 		rep.Extra["migration_states"] = totalStates
 		rep.Extra["migration_reconciles"] = totalRec
-		rep.Rule = fmt.Sprintf("(A) byte identity: for every template of a reflective generator over PodTemplateSpec (%d single-path mutations; thorough: all pairs in the first two levels) the real Match(FromBuiltin(sts), reference data) must hold, the reference being the built-in encoding. (B) migrations: built-in sets with histories T1..Tn (n=1..3), any current revision, 1..%d pods at any mix of current/update revision, partition 0/1, both policies, history limit 0/10; the real Upgrade runs, then all interleavings of real reconciles, one garbage-collector orphaning step per pod and revision, and kubelet progress are explored (explicit-state, deduplicated), also after any single interruption of the adopting reconciles (InternalError, conflict, lost response or crash at any write on revisions or pods); oracle on every reconcile: no revision is created, no revision of the built-in history is deleted before adoption, a pod is deleted only if the built-in controller would (RollingUpdate, ordinal >= partition, revision != update revision); every bottom SCC is a quiescent state with all revisions adopted and label-synced, data unchanged, status.updateRevision = the built-in one, pods adopted and converged. (C) the real Upgrade interleaved with the running controller: the helper runs in its own goroutine and is stopped before each of its API calls; between two calls any number of real reconciles, garbage-collector and kubelet steps may run, a failed Upgrade is re-run once; all schedules are explored by stateless re-execution with state pruning; same oracle on every reconcile, and the goal state at the end.", len(muts), maxPods)
+		rep.Rule = fmt.Sprintf("(A) byte identity: for every template of a reflective generator over PodTemplateSpec (%d single-path mutations; thorough: all pairs in the first two levels) the real Match(FromBuiltin(sts), reference data) must hold, the reference being the built-in encoding. (B) migrations: built-in sets with histories T1..Tn (n=1..3), the update revision Tn or (after a rollback) T1 renumbered past Tn, status.collisionCount 0 or 1, any current revision, 1..%d pods at any mix of current/update revision, partition 0/1, both policies, history limit 0/10; the real Upgrade runs, then all interleavings of real reconciles, one garbage-collector orphaning step per pod and revision, and kubelet progress are explored (explicit-state, deduplicated), also after any single interruption of the adopting reconciles (InternalError, conflict, lost response or crash at any write on revisions or pods); oracle on every reconcile: no revision is created, no revision of the built-in history is deleted before adoption, a pod is deleted only if the built-in controller would (RollingUpdate, ordinal >= partition, revision != update revision); every bottom SCC is a quiescent state with all revisions adopted and label-synced, data unchanged, status.updateRevision = the built-in one, pods adopted and converged. (C) the real Upgrade interleaved with the running controller: the helper runs in its own goroutine and is stopped before each of its API calls; between two calls any number of real reconciles, garbage-collector and kubelet steps may run, a failed Upgrade is re-run once; all schedules are explored by stateless re-execution with state pruning; same oracle on every reconcile, and the goal state at the end.", len(muts), maxPods)
 		rep.Validated = totalRec + nA
 		return rep.Finish()
 	})
